@@ -972,6 +972,14 @@ impl<'a> Parser<'a> {
                 self,
                 Token::ParenClose | Token::VariableEnd | Token::BlockEnd | Token::Ident("in")
             ) {
+                // an empty list of targets (`{% for in seq %}`, `()`) is not an
+                // assignment target; only a trailing comma may end the list here.
+                if items.is_empty() {
+                    return Err(match ok!(self.stream.current()) {
+                        Some((token, _)) => unexpected(token, "identifier"),
+                        None => unexpected_eof("identifier"),
+                    });
+                }
                 break;
             }
             items.push(if skip_token!(self, Token::ParenOpen) {
